@@ -100,6 +100,44 @@ def _monomial_root(x):
     return out
 
 
+def _poly_root(x):
+    """q with q^2 == x when x is (a rational-square multiple of) the square of a polynomial in its
+    atoms, divided by a perfect-square monomial: the pure-square terms c_i m_i^2 of the numerator give
+    the candidate terms sqrt(c_i) m_i of q, the signs are fixed greedily from the cross terms and the
+    result is verified by squaring.  None when no such q is found (the radical then stays an atom)."""
+    from .algebra import _rational_sqrt, atom_rf
+    if len(x.den) != 1 or len(x.num) < 3 or len(x.num) > 60:
+        return None
+    den = RF(dict(x.den))
+    droot = _monomial_root(den)
+    if droot is None:
+        return None
+    terms = []
+    for m, c in x.num.items():
+        if c > 0 and all(e % 2 == 0 for _, e in m):
+            rc = _rational_sqrt(c)
+            if rc is None:
+                continue
+            t = const(rc)
+            for a, e in m:
+                t = t * atom_rf(a).powi(e // 2)
+            terms.append(t)
+    k = len(terms)
+    if k < 2 or k * (k + 1) // 2 < len(x.num):
+        return None
+    num = RF(dict(x.num))
+    q = terms[0]
+    for t in terms[1:]:
+        plus, minus = q + t, q - t
+        # keep the sign whose square explains more of the numerator
+        dp = len((num - plus * plus).num)
+        dm = len((num - minus * minus).num)
+        q = plus if dp <= dm else minus
+    if not (q * q - num).is_zero():
+        return None
+    return q / droot
+
+
 class Region:
     """witness + recorded decisions"""
 
@@ -543,6 +581,8 @@ class RegionLifter:
         if x.is_zero():
             return const(0)
         root = _monomial_root(x)
+        if root is None:
+            root = _poly_root(x)
         if root is not None:
             return self.absval(root)
         # a denominator that is a perfect-square monomial leaves the radical:
@@ -628,6 +668,10 @@ class RegionLifter:
                 return r[1]                  # external name (a dtype, ...): opaque
             if node.id in ("float", "int", "bool", "complex"):
                 return node.id               # a builtin type used as a dtype
+            if node.id in self._locals_of(F):
+                raise Raised(f"local `{node.id}` is read before any assignment on this path (a loop that was "
+                             "expected to define it did not run): UnboundLocalError in Python, an "
+                             "arbitrary value (0.0) in compiled code")
             raise Unsupported(f"name {node.id}")
         if isinstance(node, ast.UnaryOp):
             v = self.ev(node.operand, env, F)
@@ -699,6 +743,17 @@ class RegionLifter:
         if isinstance(node, ast.Call):
             return self.call(node, env, F)
         raise Unsupported(f"expression {type(node).__name__}")
+
+    def _locals_of(self, F):
+        cache = self.__dict__.setdefault("_locals_cache", {})
+        if id(F) not in cache:
+            names = set()
+            for st in ast.walk(F.node):
+                tg = st.targets if isinstance(st, ast.Assign) else [st.target] if isinstance(st, (ast.AugAssign, ast.AnnAssign, ast.For)) else []
+                for t in tg:
+                    names |= {x.id for x in ast.walk(t) if isinstance(x, ast.Name)}
+            cache[id(F)] = names
+        return cache[id(F)]
 
     def attribute(self, node, env, F):
         txt = ast.unparse(node)
